@@ -72,6 +72,38 @@ class GenProxy:
         if close:
             close()
 
+    def throw(self, *exc_info):
+        """generator protocol: an exception raised INTO the listing by its consumer (not a failure of the library)"""
+        thrower = getattr(self._it, "throw", None)
+        if thrower is None:
+            self._finish(False)
+            raise exc_info[0]
+        try:
+            item = thrower(*exc_info)
+        except StopIteration:
+            self._finish(True)
+            raise
+        except BaseException:
+            self._finish(False)
+            raise
+        self._items.append(item)
+        return item
+
+    def send(self, value):
+        sender = getattr(self._it, "send", None)
+        if sender is None or value is None:
+            return self.__next__()
+        try:
+            item = sender(value)
+        except StopIteration:
+            self._finish(True)
+            raise
+        except BaseException as exc:
+            self._finish(False, exc)
+            raise
+        self._items.append(item)
+        return item
+
     def __del__(self):
         try:
             self._finish(False)
